@@ -23,6 +23,7 @@ CONSTANTS
   BugZeroCostHeld = FALSE
   SplitOnlyAtEnqueue = FALSE
   DropOnClose = FALSE
+  WithSettings = TRUE
 INVARIANTS WithinGrant WithinMaxFrame NoEligibleQueued LedgerAgrees PrefixFidelity Conserved HpackInOrder
 CONSTRAINT HWM
 POSTCONDITION Accepted
